@@ -309,6 +309,9 @@ func openBase(in *Interp) {
 		return []Value{mt}
 	})
 	in.reg(G, "setmetatable", func(in *Interp, a []Value) []Value {
+		if _, isT := arg(a, 0).(*Table); !isT && len(a) > 0 {
+			unspecified("setmetatable on a value that is not a table")
+		}
 		t := in.checkTable(a, 0, "setmetatable")
 		var mt *Table
 		switch x := arg(a, 1).(type) {
@@ -464,6 +467,7 @@ func openBase(in *Interp) {
 	openTable(in)
 	openMath(in)
 	openCoroutine(in)
+	openHost(in)
 }
 
 func (in *Interp) tailBelow(level int) bool {
@@ -649,6 +653,9 @@ func openTable(in *Interp) {
 				t.Set(float64(i), t.Get(float64(i-1)))
 			}
 		default:
+			if len(a) > 3 {
+				unspecified("table.insert with more than three arguments")
+			}
 			in.fault("wrong number of arguments to 'insert'")
 		}
 		t.Set(float64(pos), v)
@@ -734,7 +741,34 @@ func openTable(in *Interp) {
 			vals[i] = t.Get(float64(i + 1))
 		}
 		if cmp != nil {
-			unspecified("table.sort with a comparator in the reference interpreter")
+			// the comparator may only compare (or fail): the order and number of its calls is not specified, so anything
+			// it lets the outside observe makes the case Unspecified; the result is checked for a consistent order
+			nt := len(in.Trace)
+			in.th.cBoundary++
+			lt := func(x, y Value) bool { return truthy(first(in.Call(cmp, []Value{x, y}))) }
+			for i := 1; i < n; i++ {
+				for j := i; j > 0 && lt(vals[j], vals[j-1]); j-- {
+					vals[j], vals[j-1] = vals[j-1], vals[j]
+				}
+			}
+			for i := 0; i+1 < n; i++ {
+				if lt(vals[i+1], vals[i]) {
+					unspecified("table.sort with an inconsistent comparator")
+				}
+			}
+			in.th.cBoundary--
+			if len(in.Trace) != nt {
+				unspecified("table.sort comparator with observable side effects")
+			}
+			for i, v := range vals {
+				t.Set(float64(i+1), v)
+			}
+			for i := 0; i+1 < n; i++ {
+				if !lt(vals[i], vals[i+1]) {
+					unspecified("table.sort with elements the comparator does not order strictly (ties)")
+				}
+			}
+			return nil
 		}
 		allNum, allStr := true, true
 		for _, v := range vals {
@@ -799,4 +833,61 @@ func openMath(in *Interp) {
 		}
 		return []Value{m}
 	})
+}
+
+// openHost registers the host functions every generated program may use (mirrored on the gopher-lua side by e1).
+func openHost(in *Interp) {
+	G := in.G
+	// hostf(r, ...): a host callee that pushes copies of all its arguments and returns the last r of them
+	in.reg(G, "hostf", func(in *Interp, a []Value) []Value {
+		r := in.checkInt(a, 0, "hostf")
+		rest := a[1:]
+		if r < 0 {
+			r = 0
+		}
+		if r > len(rest) {
+			r = len(rest)
+		}
+		return append([]Value(nil), rest[len(rest)-r:]...)
+	})
+	// hostcall(f, ...): a host function that calls back into Lua (unprotected) and returns all results
+	in.reg(G, "hostcall", func(in *Interp, a []Value) []Value {
+		if len(a) == 0 {
+			in.argErr(1, "hostcall", "value expected")
+		}
+		in.th.cBoundary++
+		res := in.Call(a[0], a[1:])
+		in.th.cBoundary--
+		return res
+	})
+	// newud(mt): a full userdata with metatable mt (or none)
+	in.reg(G, "newud", func(in *Interp, a []Value) []Value {
+		u := &Userdata{}
+		if t, ok := arg(a, 0).(*Table); ok {
+			u.Meta = t
+		}
+		return []Value{u}
+	})
+	// snap(label): the gopher-lua side samples its internal state here; no effect in the reference
+	in.reg(G, "snap", func(in *Interp, a []Value) []Value { return nil })
+	// hostpcall(f, ...): a protected call made from the host side (LState.PCall)
+	in.reg(G, "hostpcall", func(in *Interp, a []Value) []Value {
+		if len(a) == 0 {
+			in.argErr(1, "hostpcall", "value expected")
+		}
+		ok, res := in.protected(a[0], a[1:], false, nil)
+		if ok {
+			return append([]Value{true}, res...)
+		}
+		return []Value{false, first(res)}
+	})
+	// hostraise(): the host function fails with RaiseError; hostpanic(): it panics with a Go string;
+	// hostnilpanic(): it hits a Go run-time panic.  The error value is a string whose text is not fixed.
+	for _, n := range []string{"hostraise", "hostpanic", "hostnilpanic"} {
+		in.reg(G, n, func(in *Interp, a []Value) []Value {
+			in.Stat.Faults++
+			in.raise(&OStr{Kind: "err"})
+			return nil
+		})
+	}
 }
